@@ -1163,7 +1163,7 @@ class VM:
         if isinstance(obj, JSArrayBuffer):
             if key_str == "byteLength":
                 return obj.byteLength
-            return obj.get(key_str)
+            # anything else: an ordinary (own or inherited) property, see below
 
         if isinstance(obj, JSTypedArray):
             # Typed array index access
@@ -1184,7 +1184,7 @@ class VM:
             typed_array_methods = ["toString", "join", "subarray", "set"]
             if key_str in typed_array_methods:
                 return self._make_typed_array_method(obj, key_str)
-            return obj.get(key_str)
+            # anything else: an ordinary (own or inherited) property, see below
 
         if isinstance(obj, JSArray):
             # Array index access: only canonical index keys ("1", not "01" or "-0")
@@ -2566,8 +2566,7 @@ class VM:
                 if idx is not None:
                     obj.set_index(idx, number)
                 return  # a numeric key that is no valid index is ignored
-            obj.set(key_str, value)
-            return
+            # any other key: an ordinary property, written like on any object
 
         if isinstance(obj, JSArray):
             # Special handling for length property
